@@ -46,7 +46,6 @@ IDENTITY_SRC = (
 ALLOWED = {"S": {"client.py"}, "E": {"client.py", "__init__.py", "operations.py"}, "F": {"client.py"},
            "N": {"__init__.py"}, "I": set()}
 
-F24 = "F24-forward-refs-imports"
 
 PLANS = [
     {"k": 0, "null": 0.0, "lens": [1], "seed": 0},
@@ -183,11 +182,6 @@ class Case:
     def __init__(self, sc, configs):
         self.sc, self.configs = sc, configs
         self.gen = {}  # config -> Generated
-
-
-def is_f24_failure(load) -> bool:
-    text = json.dumps(load.get("modules", {})) + load.get("tb", "")
-    return (".typing'" in text or "beyond top-level package" in text or "No module named" in text)
 
 
 def drive(g, ops, sc, plans, want_consts=False):
@@ -417,11 +411,8 @@ def compare(case, cfg, ops, plans, base_run, res, ev, first):
     load, bload = res["load"], base_run["load"]
     if not load.get("ok"):
         rep = replay_of(case, cfg, modules={k: v for k, v in load.get("modules", {}).items() if v != "ok"})
-        if "F" in cfg and is_f24_failure(load):
-            ev.append(("finding", F24, f"package generated with {cfg!r} does not import: {rep['modules']}", rep))
-            ev.append(("dist", "finding_inputs", "F24:configuration-with-ClientForwardRefs"))
-        else:
-            ev.append(("violation", f"package generated with plugins {cfg!r} does not import: {rep['modules']}", rep, True))
+        # (finding F24 — every ClientForwardRefs package failed here — is fixed by /repo 7b86743: a regression is a violation)
+        ev.append(("violation", f"package generated with plugins {cfg!r} does not import: {rep['modules']}", rep, True))
         return
     if sorted(load.get("incomplete", [])) != sorted(bload.get("incomplete", [])):
         ev.append(("violation", f"incomplete pydantic models differ with {cfg!r}: {load.get('incomplete')}",
